@@ -62,9 +62,11 @@ def _scan_case(case):
     with sc.write_project(tree) as proj:
         base = proj.path(root)
         xx = case.get("xx", True)
-        full = sc.real_scan(proj, root, mp, exclude_external_libraries=xx)
-        flat = sc.real_scan(proj, root, mp, level_limit=k, exclude_external_libraries=xx)
-        line = sc.scan_line("scan", base, tree, root, mp, lim=k, exclude_external=xx)
+        ext = case.get("ext") or ("R", ())
+        kw = sc.kw_for(("G", ("*__pycache__*",)), xx, None, ext)
+        full = sc.real_scan(proj, root, mp, **kw)
+        flat = sc.real_scan(proj, root, mp, level_limit=k, **kw)
+        line = sc.model_scan(base, tree, root, mp, exclude_external=xx, lim=k, ext=ext)
     return full, flat, line
 
 
@@ -190,5 +192,9 @@ def scan_stream(ctx, s, n, rng):
         sc.fill_sources(rng, tree, externals=not xx)
         dirs = sorted(p for p, v in tree.items() if v is None)
         mp = rng.choice(dirs) if rng.random() < 0.6 else "proj"
-        cases.append({"tree": tree, "root": "proj", "mp": mp, "k": rng.randint(0, 3), "xx": xx})
+        # externals included together with an external exclusion pattern (glob or regex) and the level limit: all three at once
+        ext = None
+        if not xx and rng.random() < 0.5:
+            ext = rng.choice([("G", ("os*",)), ("G", ("*lib*",)), ("R", (r"ext\.lib\.x",)), ("R", (r"zz_none",)), ("G", ("extra",))])
+        cases.append({"tree": tree, "root": "proj", "mp": mp, "k": rng.randint(0, 3), "xx": xx, "ext": ext})
     judge_scans(ctx, s, cases)
